@@ -34,6 +34,14 @@ Definition plus_sign : N := 43.
 Definition signed_text (n : Z) (digits : list N) : list N :=
   if n <? 0 then minus_sign :: digits else digits.
 
+(* digits with visual separators: each digit may be followed by any number of '_' (num-bigint accepts
+   "1_000", "1__0_"; the first character must be a digit) *)
+Fixpoint underscored (ds : list Z) (us : list nat) : list N :=
+  match ds with
+  | [] => []
+  | d :: r => digit_symbol d :: repeat 95%N (hd O us) ++ underscored r (tl us)
+  end.
+
 (* ---- decimal / scientific texts ---- *)
 Inductive sign := SNone | SPlus | SMinus.
 Definition sign_text (s : sign) : list N :=
